@@ -20,6 +20,8 @@ Line protocol of the C15 driver.
      repl <i> <k> <j> <l>                  paths[i].phasepoints[k] = paths[j].phasepoints[l]
      ext <i> <j>                           p.phasepoints = p.phasepoints[:-1] + q.phasepoints
      del <i> <k>                           del paths[i].phasepoints[k]
+     cpa <i> <j> <k>                       paths[i].append(paths[j].phasepoints[k].copy())
+     empty <i> <ml> <t0>                   paths.append(paths[i].empty_path(maxlen=ml, time_origin=t0))
   seq <target> <list intf> <list ops>      classifySeq (the pure function of an order list)
   cls <list intf> <list ops>      ordermin / ordermax / check_interfaces
   sp <left> <right|-> <list ops>  get_start_point
@@ -131,6 +133,14 @@ def parseOp (toks : List String) : Option (Op × List String) :=
     match parseNat? i, parseNat? j with
     | some i, some j => some (.ext i j, rest)
     | _, _ => none
+  | "cpa" :: i :: j :: k :: rest =>
+    match parseNat? i, parseNat? j, parseNat? k with
+    | some i, some j, some k => some (.cpa i j k, rest)
+    | _, _, _ => none
+  | "empty" :: i :: ml :: t :: rest =>
+    match parseNat? i, optInt? ml, parseInt? t with
+    | some i, some ml, some t => some (.emptyOf i ml t, rest)
+    | _, _, _ => none
   | "del" :: i :: k :: rest =>
     match parseNat? i, parseNat? k with
     | some i, some k => some (.del i k, rest)
